@@ -12,14 +12,16 @@
        provided the bodies of its text runs are brace-neutral (the property's text domain: user text
        without unbalanced raw braces). Every structural part - code strings, paragraph formats, borders,
        rows, page breaks, pictures, font / colour tables, page settings - is proved for all inputs.
-   Still missing for the full statement: clauses 3-5 of wf_rtf (lexical validity, \u ranges, per-row
-   cell counts) at document level; they are proved per item / per table and evaluated per case by
-   the driver (wf_rtf on the implementation's tokens). *)
+     - C01_document_lexical (Proofs/DocumentLex.v): under the analogous hypothesis on the text bodies, every
+       control sequence of the document is lexically valid (clause 3 of wf_rtf).
+   Still missing for the full statement: clauses 4-5 of wf_rtf (\u ranges with fallback counts, per-row
+   cell counts) at document level; they are proved per escaped string (C10) / per row and evaluated per
+   case by the driver (wf_rtf on the implementation's tokens). *)
 From Coq Require Import Ascii String.
 From Coq Require Import List NArith ZArith Bool.
 Local Open Scope string_scope.
 Local Open Scope list_scope.
-From V Require Import Str Tok Items WellFormed Tables Doc Case Pipeline Document EmitWF TablesWF DocumentWF ExampleDoc.
+From V Require Import Str Tok Items WellFormed Tables Doc Case Pipeline Document EmitWF TablesWF DocumentWF DocumentLex ExampleDoc.
 Import ListNotations.
 
 Theorem C01_items_balanced : forall its, Forall item_ok its -> neutral (emit_items its).
@@ -60,6 +62,17 @@ Theorem C01_document :
 Proof. exact encode_one_group. Qed.
 Print Assumptions C01_document.
 
+(* clause 3 of wf_rtf at document level: every control sequence is a non-empty lower-case control word or an allowed
+   control symbol, provided the text bodies are *)
+Theorem C01_document_lexical :
+  forall ctx d ts,
+    encode_with ctx d = Ok ts ->
+    (forall pages, document_pages ctx d = Ok pages -> bodies_lx (concat pages)) ->
+    comp_bodies_lx ctx (d_page_header d) -> comp_bodies_lx ctx (d_page_footer d) ->
+    all_b tok_lexical ts = true.
+Proof. exact encode_lexical. Qed.
+Print Assumptions C01_document_lexical.
+
 (* non-vacuity at document level: the dumped state of a real RTFDocument (Gen/ExampleDoc.v, regenerated on every run:
    page_by table over two pages, colours, title, footnote table, source paragraph, page header and footer) decodes,
    encodes, meets the text-domain hypothesis, and its tokens are well-formed by computation as well *)
@@ -68,7 +81,8 @@ Example C01_document_example :
   | Some d =>
     let ctx := Some (collect_colors d) in
     match document_pages ctx d, encode d with
-    | Ok pages, Ok ts => bodies_okb (concat pages) = true /\ Nat.ltb 1 (length pages) = true /\ wf_rtf ts = true
+    | Ok pages, Ok ts => bodies_okb (concat pages) = true /\ bodies_lxb (concat pages) = true
+                         /\ Nat.ltb 1 (length pages) = true /\ wf_rtf ts = true
     | _, _ => False
     end
   | None => False
